@@ -84,13 +84,18 @@ def real_sh(line, workdir, idx=0, cmdword='prog'):
         except OSError:
             pass
     env = {'PATH': bindir, 'VPX_REC': rec, 'HOME': '/nonexistent-home'}
-    try:
-        r = subprocess.run(['/bin/sh', '-c', 'eval "$1"', 'sh', line], env=env, cwd=workdir, capture_output=True,
-                           timeout=20)
-    except subprocess.TimeoutExpired:
-        return ('error', 'timeout')
-    finally:
-        pass
+    for attempt in range(8):
+        try:
+            r = subprocess.run(['/bin/sh', '-c', 'eval "$1"', 'sh', line], env=env, cwd=workdir,
+                               capture_output=True, timeout=20)
+        except subprocess.TimeoutExpired:
+            return ('error', 'timeout')
+        # ETXTBSY: another thread forked while our freshly written stub was still open for writing
+        if b'Text file busy' in r.stderr and not os.path.exists(rec):
+            import time
+            time.sleep(0.05 * (attempt + 1))
+            continue
+        break
     if not os.path.exists(rec):
         shutil.rmtree(bindir, ignore_errors=True)
         return ('error', 'rc=%d %s' % (r.returncode, r.stderr.decode(errors='replace')[:200]))
